@@ -63,6 +63,7 @@ package shellfuncsfile
 //@   ghost filterErr bool = false
 //@   ghost nFilter int = 0
 //@   on call slices.Sort(x): assert(x == patterns && nSort == 0, "patterns_are_sorted"); nSort++
+//@   on call maps.Keys(m) (ks): assert(m == filters && nSort == 0, "patterns_are_those_of_the_table_handed_in")
 //@   ghost matchErr bool = false
 //@   on call filepath.Match(p, n) (ok, e): assert(nSort == 1 && p == pattern && n == filepath.Base(fn), "pattern_matched_against_the_base_name"); if e != nil { matchErr = true }
 //@   on assign matchedPattern(v): mi = k
@@ -97,6 +98,10 @@ package shellfuncsfile
 //@   ghost lastConvOK bool = false
 //@   on call slices.Sort(x): if nSortP == 0 { assert(x == patterns && nSortN == 0, "patterns_sorted_before_globbing"); nSortP++ } else { assert(x == fileNames && nCompact == 0 && nSortN == 0, "names_sorted_once"); nSortN++ }
 //@   on call slices.Compact(x) (y): assert(x == fileNames && nSortN == 1 && nCompact == 0, "duplicates_removed_after_sorting"); nCompact++
+//@   ghost nClone int = 0
+//@   ghost nKeys int = 0
+//@   on call maps.Clone(m) (cl): assert(m == c.filters && nClone == 0 && held("Converter.filtersL"), "the_filter_table_is_copied_under_its_lock"); nClone++
+//@   on call maps.Keys(m) (ks): assert(m == filters && nClone == 1 && nKeys == 0, "patterns_are_those_of_this_converters_own_table"); nKeys++
 //@   on enter fs.Glob(f, p): assert(nSortP == 1 && nSortN == 0 && f == sfs && p == pattern, "candidates_are_the_directory_entries_matching_a_filter_pattern")
 //@   on enter fs.Stat(f, n): assert(nSortN == 1 && nCompact == 1 && f == sfs && n == fileName && !strings.HasPrefix(n, "."), "dot_files_are_never_touched"); statted = true; regular = false
 //@   on call fs.FileMode.IsRegular(m) (b): regular = b
